@@ -6,8 +6,9 @@
 (* which rewrites the segment that holds o (the segment a reader sits in,   *)
 (* or the HW segment a reader in an earlier segment still points to) -      *)
 (* followed by further appends and drains.  Same actions and P_* predicates *)
-(* as MC_CommitLog (C01); only the mix of steps differs: no reopen, no      *)
-(* read-only, no epochs, no concurrency control, readers always committed.  *)
+(* as MC_CommitLog (C01); only the mix of steps differs: clean close/reopen  *)
+(* (HW must survive it), no read-only, no epochs, no concurrency control,   *)
+(* readers always committed.                                                *)
 EXTENDS MC_CommitLog
 
 RdNext ==
@@ -17,6 +18,7 @@ RdNext ==
   \/ \E h \in (hw + 1)..Newest : h >= Oldest /\ MCSetHW(h)
   \/ \E r \in Readers, s \in 0..(Newest + 1) : MCNewReader(r, s, TRUE)
   \/ \E r \in Readers : MCDrain(r) \/ MCTail(r)
+  \/ MCReopen       \* clean close + open (pause/resume, restart): subscribers come back afterwards
 
 RdSpec == MCInit /\ [][RdNext]_mcvars
 
@@ -39,4 +41,14 @@ RdFamNext ==
     [] nOps \in 8..9 -> RdAppends
     [] OTHER         -> RdNext
 RdFamSpec == MCInit /\ [][RdFamNext]_mcvars
+
+\* Scenario family "clean close/reopen early in the life of the log": a few
+\* records, a HW (any value, including the first offset), then close/reopen
+\* among reader creations and drains, then anything.
+RdFam2Next ==
+  CASE nOps < 2       -> RdAppends
+    [] nOps = 2       -> RdHW
+    [] nOps \in 3..4  -> MCReopen \/ RdReaders \/ RdDrains
+    [] OTHER          -> RdNext
+RdFam2Spec == MCInit /\ [][RdFam2Next]_mcvars
 =============================================================================
